@@ -9,6 +9,7 @@ pub mod codec_world;
 pub mod crash_world;
 pub mod crypto_world;
 pub mod eventlog_world;
+pub mod files_world;
 pub mod gen;
 pub mod leak_world;
 pub mod server_world;
